@@ -56,6 +56,18 @@ class MDS:
     def get_component(self, name: str) -> MComp:
         return self.components[name]
 
+    def add_component(self, c: "MComp") -> None:
+        self.components[c.name] = c
+
+    def delete_component(self, name: str) -> None:
+        self.components.pop(name, None)
+
+    def get_viral_attributes_names(self) -> List[str]:
+        return [c.name for c in self._by("VIRAL_ATTRIBUTE")]
+
+    def get_attributes_names(self) -> List[str]:
+        return [c.name for c in self._by("ATTRIBUTE")]
+
     def summary(self) -> Tuple[Tuple[str, ...], Tuple[str, ...]]:
         return tuple(sorted(self.get_identifiers_names())), tuple(sorted(self.get_measures_names()))
 
@@ -68,9 +80,10 @@ class Model:
         self.roles = {k: it.eval(ast.parse(f"Role.{k}", mode="eval").body, {}, probe) for k in ("IDENTIFIER", "MEASURE", "ATTRIBUTE", "VIRAL_ATTRIBUTE")}
         self.number = ClassVal("vtlengine.DataTypes.Number")
 
-    def ds(self, name: str, ids: List[str], measures: List[str], virals: List[str] = ()) -> MDS:
+    def ds(self, name: str, ids: List[str], measures: List[str], virals: List[str] = (), attrs: List[str] = ()) -> MDS:
         c: Dict[str, MComp] = {i: MComp(i, self.roles["IDENTIFIER"], self.number, False) for i in ids}
         c.update({m: MComp(m, self.roles["MEASURE"], self.number) for m in measures})
+        c.update({a: MComp(a, self.roles["ATTRIBUTE"], self.number) for a in attrs})
         c.update({v: MComp(v, self.roles["VIRAL_ATTRIBUTE"], self.number) for v in virals})
         return MDS(name, c, self.roles)
 
@@ -118,3 +131,201 @@ BINARY_SHAPES: List[Tuple[str, List[str], List[str], List[str], List[str]]] = [
     ("left-superset-2m", ["A", "B", "C"], ["B"], ["M", "N"], ["M", "N"]),
     ("right-superset-2m", ["B"], ["A", "B", "C"], ["M", "N"], ["M", "N"]),
 ]
+
+
+# ---------------------------------------------------------------------------------------------------------------
+# clause operators: StructureVisitor builder vs Operators.Clause validator
+class MNode:
+    """mock AST node: `_cls` names the vtlengine.AST class it stands for (for isinstance tests evaluated from source)"""
+    def __init__(self, cls: str, **kw: Any) -> None:
+        self._cls = cls
+        self.__dict__.update(kw)
+
+
+class MSelf:
+    """mock StructureVisitor instance: methods not overridden by the check are the repository's own (dispatched by E6)"""
+    _e6_class = SV
+
+    def __init__(self) -> None:
+        self._udo_params = None
+        self._join_alias_map: Dict[str, str] = {}
+        self.available_tables: Dict[str, Any] = {}
+        self.output_datasets: Dict[str, Any] = {}
+        self.current_assignment = ""
+
+
+def _isinstance(obj: Any, type_names: List[str]) -> bool:
+    c = getattr(obj, "_cls", None)
+    names = {t.split(".")[-1] for t in type_names}
+    if isinstance(obj, MDS):
+        return "Dataset" in names
+    if isinstance(obj, MComp):
+        return bool(names & {"Component", "DataComponent"})
+    if isinstance(obj, str):
+        return "str" in names
+    return c in names
+
+
+CLAUSE_BUILDERS = {"calc": "_build_calc_structure", "keep": "_build_keep_structure", "drop": "_build_drop_structure", "rename": "_build_rename_structure", "sub": "_build_subspace_structure"}
+CLAUSE_VALIDATORS = {"calc": "vtlengine.Operators.Clause.Calc", "keep": "vtlengine.Operators.Clause.Keep", "drop": "vtlengine.Operators.Clause.Drop", "rename": "vtlengine.Operators.Clause.Rename", "sub": "vtlengine.Operators.Clause.Sub"}
+
+
+def clause_visitor(M: Model, op: str, ds: MDS, names: List[str], renames: Optional[List[Tuple[str, str]]] = None) -> Tuple[str, Any]:
+    f = M.P.func(f"{SV}.{CLAUSE_BUILDERS[op]}")
+    if op == "rename":
+        children = [MNode("RenameNode", old_name=a, new_name=b) for a, b in renames or []]
+    elif op == "sub":
+        children = [MNode("BinOp", left=MNode("VarID", value=n), op="=", right=MNode("Constant", value=1)) for n in names]
+    elif op == "calc":
+        children = [MNode("Assignment", left=MNode("VarID", value=n), op=":=", right=MNode("Constant", value=1)) for n in names]
+    else:
+        children = [MNode("VarID", value=n) for n in names]
+    node = MNode("RegularAggregation", op=op, children=children, dataset="SRC")
+    me = MSelf()
+    ext: Dict[str, Callable[..., Any]] = {
+        "self._get_dataset_structure": lambda x: ds,
+        "Dataset": M.mk_dataset,
+        "isinstance": _isinstance,
+        "self._resolve_udo_name": lambda x: x,
+        "self._resolve_name": lambda x: getattr(x, "value", x),
+        "self._resolve_membership_name": lambda x: x,
+        "self._make_comp": lambda name, dt=None, role=None, nullable=True, **kw: MComp(name, role if role is not None else M.roles["MEASURE"], dt, nullable),
+        "self._get_output_dataset": lambda: None,
+    }
+    it = Interp(M.P, externals=ext)
+    try:
+        res = it.call(f, {"self": me, "node": node})
+    except Raised as r:
+        return "raise", getattr(r.exc, "code", None)
+    return "ok", res
+
+
+def clause_interpreter(M: Model, op: str, ds: MDS, names: List[str], renames: Optional[List[Tuple[str, str]]] = None) -> Tuple[str, Any]:
+    f = M.P.func(f"{CLAUSE_VALIDATORS[op]}.validate")
+    if op == "rename":
+        operands: List[Any] = [MNode("RenameNode", old_name=a, new_name=b) for a, b in renames or []]
+    elif op == "sub":
+        operands = [MComp(n, ds.components[n].role if n in ds.components else M.roles["MEASURE"]) for n in names]
+    elif op == "calc":
+        operands = [MComp(n, M.roles["MEASURE"], M.number) for n in names]
+    else:
+        operands = list(names)
+    ext: Dict[str, Callable[..., Any]] = {
+        "VirtualCounter._new_ds_name": lambda: "__VDS__",
+        "Dataset": M.mk_dataset,
+        "Component": lambda **kw: MComp(kw["name"], kw["role"], kw.get("data_type"), kw.get("nullable", True)),
+        "isinstance": _isinstance,
+        "re.match": lambda pat, s_: None,
+        "copy": lambda x: MComp(x.name, x.role, x.data_type, x.nullable) if isinstance(x, MComp) else x,
+    }
+    it = Interp(M.P, externals=ext)
+    try:
+        res = it.call(f, {"operands": operands, "dataset": ds}, bound_cls=ClassVal(CLAUSE_VALIDATORS[op]))
+    except Raised as r:
+        return "raise", getattr(r.exc, "code", None)
+    return "ok", res
+
+
+def comp_summary(d: MDS) -> Tuple[Tuple[str, str], ...]:
+    return tuple(sorted((c_.name, c_.role) for c_ in d.components.values()))
+
+
+# ---------------------------------------------------------------------------------------------------------------
+# the SQL side of the clause handlers: which columns does the generated SELECT deliver?
+class MBuilder:
+    """mock of SQLBuilder that records what the handler asks for (the handler code is the repository's, evaluated by E6)"""
+    def __init__(self) -> None:
+        self.cols: List[str] = []
+        self.table = ""
+        self.wheres: List[str] = []
+        self.star = False
+
+    def select(self, *cols: str) -> "MBuilder":
+        self.cols.extend(cols)
+        return self
+
+    def select_all(self) -> "MBuilder":
+        self.star = True
+        return self
+
+    def from_table(self, table: str, alias: str = "") -> "MBuilder":
+        self.table = table
+        return self
+
+    def where(self, cond: str) -> "MBuilder":
+        self.wheres.append(cond)
+        return self
+
+    def build(self) -> "MBuilder":
+        return self
+
+
+def sql_columns(b: MBuilder, source_cols: List[str]) -> List[str]:
+    """column names the recorded SELECT delivers, given the source's columns"""
+    import re as _re
+    out: List[str] = []
+    if b.star and not b.cols:
+        return list(source_cols)
+    for c in b.cols:
+        m = _re.fullmatch(r'\* EXCLUDE \((.*)\)', c.strip())
+        if m:
+            ex = {x.strip().strip('"') for x in m.group(1).split(",")}
+            out.extend(x for x in source_cols if x not in ex)
+            continue
+        m = _re.search(r'\bAS\s+"([^"]+)"\s*$', c)
+        out.append(m.group(1) if m else c.strip().strip('"'))
+    return out
+
+
+SQL_HANDLERS = {"calc": "visit_RegularAggregation_calc", "keep": "visit_RegularAggregation_keep", "drop": "visit_RegularAggregation_drop", "rename": "visit_RegularAggregation_rename",
+                "sub": "visit_RegularAggregation_sub", "filter": "visit_RegularAggregation_filter"}
+TRQ = "vtlengine.duckdb_transpiler.Transpiler.SQLTranspiler"
+
+
+class MTranspiler(MSelf):
+    _e6_class = TRQ
+
+    def __init__(self) -> None:
+        super().__init__()
+        self._consumed_join_aliases: set = set()
+        self._in_clause = False
+        self._current_dataset = None
+        self._column_prefix = None
+
+
+def clause_sql(M: Model, op: str, ds: MDS, names: List[str], renames: Optional[List[Tuple[str, str]]] = None) -> Tuple[str, Any]:
+    f = M.P.func(f"{TRQ}.{SQL_HANDLERS[op]}")
+    if op == "rename":
+        children: List[Any] = [MNode("RenameNode", old_name=a, new_name=b) for a, b in renames or []]
+    elif op == "sub":
+        children = [MNode("BinOp", left=MNode("VarID", value=n), op="=", right=MNode("Constant", value=1)) for n in names]
+    elif op == "filter":
+        children = [MNode("VarID", value="COND")]
+    elif op == "calc":
+        children = [MNode("Assignment", left=MNode("VarID", value=n), op=":=", right=MNode("Constant", value=1)) for n in names]
+    else:
+        children = [MNode("VarID", value=n) for n in names]
+    node = MNode("RegularAggregation", op=op, children=children, dataset="SRC")
+    me = MTranspiler()
+    ext: Dict[str, Callable[..., Any]] = {
+        "self._resolve_clause_dataset": lambda n: (ds, '"SRC"'),
+        "self._get_dataset_sql": lambda n: '"SRC"',
+        "self._get_dataset_structure": lambda n: ds,
+        "SQLBuilder": MBuilder,
+        "quote_name": lambda n: f'"{n}"',
+        "isinstance": _isinstance,
+        "self._resolve_udo_name": lambda x: x,
+        "self._resolve_name": lambda x: getattr(x, "value", x),
+        "self._resolve_membership_name": lambda x: x,
+        "self._get_node_value": lambda x: getattr(x, "value", x),
+        "self.visit": lambda x: f"⟦{getattr(x, 'value', '?')}⟧",
+        "self._clause_scope": lambda *a, **k: None,
+        "_contains_analytic": lambda x: False,
+        "self._as_subquery": lambda x: x,
+    }
+    it = Interp(M.P, externals=ext)
+    try:
+        res = it.call(f, {"self": me, "node": node})
+    except Raised as r:
+        return "raise", getattr(r.exc, "code", None)
+    return "ok", res
